@@ -1,4 +1,6 @@
 """C14 — Display of Span / Position never panics (inventory + discharge table), control pictures, must-show rule."""
+import re
+
 from .. import facts, inv
 from ..hir import walk, strip_generics
 
@@ -135,6 +137,80 @@ def run(ctx):
             rs.violate(nm, "a path returns Ok(()) without having displayed any snippet (the line search loop can end without a hit)",
                        c.loc(b["value"].get("sp")))
     rs.require(2, "functions")
+
+    # gutter: the width of the number column is computed from the largest line number that is printed
+    rgt = ctx.rule("R14-GUTTER", "every display_snippet_* call in display_span / display_position gets the width ceil_log10(L + 1) where L is the "
+                   "0-based line of the last line it prints (the first argument of the Partition built for it): numbered and unnumbered rows align")
+    for nm in ("display_span", "display_position"):
+        fid = "pest_typed::formatter::FormatOption::<SF, MF, NF>::" + nm
+        b = g.bodies.get(fid)
+        if b is None:
+            rgt.violate(nm, "function missing (anchor lost)")
+            continue
+        inv._LETS = inv.collect_lets(b["value"])
+        ncalls = 0
+        # `a == b` conditions whose then-branch encloses a node
+        eq_guards = {}
+
+        def mark(e, conds):
+            eq_guards[id(e)] = conds
+            if e["k"] == "if":
+                mark(e["cond"], conds)
+                cd = e["cond"]
+                mark(e["then"], conds + ((cd,) if cd["k"] == "binary" and cd.get("op") == "==" else ()))
+                if "else" in e:
+                    mark(e["else"], conds)
+                return
+            from ..hir import children
+            for ch in children(e):
+                mark(ch, conds)
+        mark(b["value"], ())
+        for n, guards in inv.walk_guarded(c, b["value"]):
+            cal = n.get("callee")
+            if not (cal and strip_generics(cal["path"]).startswith(SNIPPET_PREFIX)):
+                continue
+            ncalls += 1
+            args = ([n["recv"]] if n["k"] == "mcall" else []) + n["args"]
+            short = strip_generics(cal["path"]).rsplit("::", 1)[-1]
+            # (self, f, width, line...) — the last Partition argument is the last line printed
+            def resolve(e):
+                while True:
+                    while e["k"] in ("addr_of", "use", "cast") or (e["k"] == "block" and not e.get("stmts") and "tail" in e):
+                        e = e["tail"] if e["k"] == "block" else e["e"]
+                    if e["k"] == "local" and inv._LETS.get(e.get("var"), ("", None))[0] == "let":
+                        e = inv._LETS[e["var"]][1]
+                        continue
+                    return e
+            key = "%s -> %s" % (nm, short)
+            loc = c.loc(n.get("sp"))
+            w = resolve(args[2])
+            wc = w.get("callee") if w["k"] in ("call", "mcall") else None
+            parts = [resolve(a) for a in args[3:]]
+            parts = [p_ for p_ in parts if p_["k"] == "call" and p_.get("callee") and
+                     re.search(r"::Partition2?(::<[^>]*>)?::new$", strip_generics(p_["callee"]["path"]) if False else p_["callee"]["path"])]
+            if not (wc and strip_generics(wc["path"]).endswith("::ceil_log10")) or not parts:
+                rgt.violate(key, "cannot read the width (%s) or the last line's Partition" % inv.short_descr(c, args[2]), loc)
+                continue
+            warg = resolve(w["args"][0])
+            first = resolve(parts[-1]["args"][0])
+            if not (warg["k"] == "binary" and warg["op"] == "+" and warg["r"]["k"] == "lit" and (warg["r"]["v"] or {}).get("int") == "1"):
+                rgt.violate(key, "gutter width is ceil_log10(%s), expected the largest printed number: (%s)+1" % (
+                    inv.short_descr(c, warg)[:160], inv.short_descr(c, first)[:160]), loc)
+                continue
+            wl = inv.short_descr(c, resolve(warg["l"]))
+            same = {inv.short_descr(c, first)}
+            for cond in eq_guards.get(id(n), ()):
+                a_, b_ = inv.short_descr(c, resolve(cond["l"])), inv.short_descr(c, resolve(cond["r"]))
+                if a_ in same or b_ in same:
+                    same |= {a_, b_}
+            if wl in same:
+                rgt.inst(key, loc, "ok", {"width_of": wl[:120] + "+1"})
+            else:
+                rgt.violate(key, "gutter width is ceil_log10((%s)+1) but the last line printed is number (%s)+1: rows with and without a number "
+                            "get different widths when that number has more digits" % (wl[:160], sorted(same)[0][:160]), loc)
+        if not ncalls:
+            rgt.violate(nm, "no display_snippet_* call found (anchor lost)")
+    rgt.require(3, "snippet calls")
 
     # the lines Display shows are cut by Span::lines / Position::find_line_*: these must split exactly as pest's do
     rl = ctx.rule("R14-LINES", "the line-splitting helpers Display reaches (Span::lines, Lines/LinesSpan::next, Position::find_line_start/"
